@@ -482,7 +482,7 @@ func TestVerifC02(t *testing.T) {
 	stats.Add("max_lpm_tries_in_a_program", k.maxTries)
 	k.st.Close()
 
-	// ---------------------------------------------------------------- finding #6 replay
+	// ---------------------------------------------------------------- empty-process-name replay (former finding #6, fix C02.fix1)
 	f := &c02Kern{st: VOpenStream("c02f6"), stats: NewVStats(), curSlots: map[uint32]struct{}{}, domKeys: map[[16]byte]struct{}{}}
 	f.st.Emit(fmt.Sprintf("ringset %d", globalNextLpmIndex.Load()), "ok")
 	f6text := "global {}\nrouting {\n  pname('') -> block\n  fallback: direct\n}\n"
